@@ -148,9 +148,13 @@ def long_lines(rng, tier):
 
 def pinned_signs():
     out = []
-    for text, v, cur in (("200 + -%10", 180, None), ("200 - -%10", 220, None), ("200 + - 10%", 180, None), ("200 - - 10%", 220, None),
+    for text, v, cur in (("%1.234,5 of 10", Fraction(12345, 100), None), ("1.234,5% of 10", Fraction(12345, 100), None),
+                         ("10 + %1.234,5", 10 + Fraction(12345, 100), None), ("%1.234.567 of 1", Fraction(1234567, 100), None),
+                         ("200 + -%10", 180, None), ("200 - -%10", 220, None), ("200 + - 10%", 180, None), ("200 - - 10%", 220, None),
                          ("$200 + -%10", 180, "USD"), ("200 + -(10%)", 180, None), ("200 - %-10", 220, None), ("200 + -10%", 180, None)):
-        out.append(exec_case(text, "en", kind="pinned-sign", nlines=1, expect=[v, 1], mag=[400, 1], typ="same", cur=cur))
+        v = Fraction(v)
+        out.append(exec_case(text, "en", kind="pinned-sign", nlines=1, expect=[v.numerator, v.denominator],
+                             mag=[abs(v.numerator) + 400, 1], typ="same", cur=cur))
     return out
 
 
